@@ -2,6 +2,7 @@ import Driver.Common
 import LinkVerif.Model.Wal
 import LinkVerif.Go.Crc32c
 import LinkVerif.Gen.WalFacts
+import Driver.C01
 
 namespace Driver.C14
 open Go.Proto Model.Wal Driver
@@ -18,6 +19,10 @@ structure St where
   headLimit : Nat := 10485760
   totalLimit : Nat := 1073741824
   started : Bool := false
+  /-- resume family: the node model of C01 (Model.Node), stepped by the `ns` ops over the inputs the original node handled -/
+  ns : Driver.C01.NS := Driver.C01.NS.init
+  /-- the node-model state line after trace step k (k = number of inputs handled) -/
+  nsLines : List (Nat × String) := []
 
 def codecOf (table : List (Bytes × Option Nat)) : Codec :=
   { crc := Go.Crc32c.checksumNat
@@ -184,6 +189,24 @@ def step (s : St) (toks : List String) : St × String :=
       if s.g.canOpenP s.gone i then (s, "r=" ++ showTrace s.table (trace c s.g.tail (sk != 0) (s.g.stream i)))
       else (s, "r=e:open")
     | _, _ => (s, "bad-op")
+  | "simk" :: _ => ({ s with ns := { Driver.C01.NS.init with sim := true }, nsLines := [] }, "ok")
+  | "ns" :: _ =>
+    let (ns', ans) := Driver.C01.nsStep s.ns toks
+    let line := ((ans.splitOn " msgs=").headD "")
+    match argNat? toks "k" with
+    | some k => ({ s with ns := ns', nsLines := if ans.startsWith "h=" then s.nsLines ++ [(k, line)] else s.nsLines }, ans)
+    | none => ({ s with ns := ns' }, ans)
+  | "restart" :: _ =>
+    -- catchupReplay(k+1) of a fresh state over EndHeight{k} ++ the first `cut` records of the height ++ `torn` bytes of the
+    -- next one: the log is record-aligned, so (Props.C14.catchup_replays_after_marker / catchup_torn_gives_up) either all
+    -- `cut` records are replayed — the state is the fold of Model.Node.step over that prefix, which is the line recorded
+    -- after trace step base+cut — or, with 4 or more torn bytes, the read error and nothing is replayed
+    match argNat? toks "cut", argNat? toks "torn", argNat? toks "base" with
+    | some j, some t, some b =>
+      let lineAt (k : Nat) : String := match s.nsLines.find? (fun e => e.1 == k) with | some e => e.2 | none => "h=?"
+      if t < 4 then (s, s!"outcome=done replayed={j} votes=same {lineAt (b + j)}")
+      else (s, s!"outcome=err:{if t < 8 then "e:len" else "e:data"} replayed=0 votes=same {lineAt b}")
+    | _, _, _ => (s, "bad-op")
   | "catchup" :: _ =>
     -- the start-up path of a real ConsensusState at its genesis height 1 on a copy of the files
     let auto0 : Bytes := [0x41, 0x55, 0x54, 0x4F]   -- stand-in for the EndHeight{0} record that OnStart writes into an empty head
